@@ -96,6 +96,24 @@ static std::string runCase(GEOSContextHandle_t h, const std::string& tin, const 
         GEOSGeom_destroy_r(h, r); }
     return "B | " + tin + " | " + parTok(p) + " | " + st + " | " + tres; }
 
+// polygon with one or two holes: the grid generator rarely produces holes, so build them here: a shell scaled by 4 and
+// small rings placed inside it, accepted when GEOS calls the polygon valid
+static bool holedPolygon(GridGen& gen, Rng& r, GElem& outE) {
+    for (int tries = 0; tries < 16; tries++) {
+        GElem e; e.kind = 2; auto shell = gen.ring(); for (auto& p : shell) { p.x *= 4; p.y *= 4; }
+        e.rings.push_back(shell);
+        long x0 = shell[0].x, x1 = x0, y0 = shell[0].y, y1 = y0; for (auto& p : shell) { x0 = std::min(x0, p.x); x1 = std::max(x1, p.x); y0 = std::min(y0, p.y); y1 = std::max(y1, p.y); }
+        if (x1 - x0 < 4 || y1 - y0 < 4) continue;
+        int want = r.range(1, 2);
+        for (int k = 0; k < 12 && (int) e.rings.size() - 1 < want; k++) {
+            int saved = gen.span; gen.span = r.range(1, 3); auto h = gen.ring(); gen.span = saved;
+            int sc = r.range(1, 3); long ox = r.range((int) x0, (int) x1), oy = r.range((int) y0, (int) y1);
+            for (auto& p : h) { p.x = p.x * sc + ox; p.y = p.y * sc + oy; }
+            GElem t = e; t.rings.push_back(h);
+            if (gen.validElem(t)) e = t; }
+        if (e.rings.size() > 1) { outE = e; return true; } }
+    return false; }
+
 static double pick(Rng& r, std::initializer_list<double> l) { auto it = l.begin(); std::advance(it, r.below(l.size())); return *it; }
 
 int main(int argc, char** argv) {
@@ -126,7 +144,8 @@ int main(int argc, char** argv) {
             Par p;
             int mode = (int) r.below(100);
             GGeom A;
-            if (mode < 80) { p.mode = "buf"; int k = (int) r.below(100); A = gen.geom(k < 12 ? 0 : k < 40 ? 1 : k < 75 ? 2 : 3, true, true); }
+            if (mode < 80) { p.mode = "buf"; int k = (int) r.below(100); A = gen.geom(k < 12 ? 0 : k < 40 ? 1 : k < 75 ? 2 : 3, true, true);
+                if (k >= 40 && k < 58) { GElem e; if (holedPolygon(gen, r, e)) { A = GGeom{}; A.container = 0; A.elems.push_back(e); out.count("holed_polygon"); } } }
             else if (mode < 86) { p.mode = "buf"; p.ss = 1; A = gen.geom(1, false, false); }          // single-sided through BufferParams: lineal input
             else if (mode < 95) { p.mode = "oc"; A.container = 0; A.elems.push_back(r.chance(70) ? gen.line() : gen.polygon()); }      // the offset curve is defined per element: single elements only
             else { p.mode = "ssb"; A.container = 0; A.elems.push_back(gen.line()); }
